@@ -29,7 +29,9 @@ MAX_SHARDS = 3   # fork throughput of this sandbox (~80/s) does not scale with p
 RULE = ('case = history of <=6 BeartypeConf(**kw) calls + a final one, each kw from per-option pools '
         '(valid / invalid / look-alike), run in a forked pristine process and compared with a fork that '
         'runs only the final call; non-trivial = history holds a value that is == but not identical '
-        '(or of another type) to a later one for the same option, or the final call sets >=3 non-default options')
+        '(or of another type) to a later one for the same option, or the final call sets >=3 non-default options. In addition the '
+        'finite part of the domain is enumerated, not sampled: every (option, pool value incl. falsy junk) pair alone in a fresh '
+        'process (quick and thorough) and every invalid / look-alike value right after every valid one of the same option (thorough)')
 ASSUMPTIONS = [
     'documented adjustment: when BEARTYPE_IS_COLOR is set (part of the generated case) it overrides is_color',
     'validity model: bool options accept exactly bool; enums exactly their members; violation types None or Exception subclasses; '
@@ -55,7 +57,7 @@ def _objects():
     from beartype.roar import BeartypeDoorHintViolation, BeartypeClawDecorWarning
     return {
         'True': True, 'False': False, 'None': None, '1': 1, '0': 0, '1.0': 1.0, '0.0': 0.0,
-        '2': 2, '3': 3, "'True'": 'True', '[]': [], "'O1'": 'O1',
+        '2': 2, '3': 3, "'True'": 'True', '[]': [], "'O1'": 'O1', "''": '', "b''": b'', 'fs()': frozenset(),
         'S.O0': BeartypeStrategy.O0, 'S.O1': BeartypeStrategy.O1, 'S.Ologn': BeartypeStrategy.Ologn,
         'S.On': BeartypeStrategy.On,
         'V.MIN': BeartypeViolationVerbosity.MINIMAL, 'V.DEF': BeartypeViolationVerbosity.DEFAULT,
@@ -77,11 +79,13 @@ def _objects():
 
 
 BOOL_OK = ['True', 'False']
-BOOL_BAD = ['1', '0', '1.0', '0.0', "'True'", 'None', '[]']
+BOOL_BAD = ['1', '0', '1.0', '0.0', "'True'", 'None', '[]', "''", '()']
 EXC_OK = ['None', 'ValueError', 'UserWarning', 'UserExc', 'UserWarn', 'DoorViol']
-EXC_BAD = ['KeyboardInterrupt', 'int', "'ValueError'", 'ValueError()', '1']
+# every invalid pool holds falsy junk too (0, False, 0.0, '', (), [], {}): validation by truthiness instead of by type lets it through
+FALSY = ['0', 'False', '0.0', "''", "b''", '()', 'fs()', '[]', '{}']
+EXC_BAD = ['KeyboardInterrupt', 'int', "'ValueError'", 'ValueError()', '1'] + FALSY
 PLACE_OK = ['P.FIRST', 'P.LAST', 'P.LBDH']
-PLACE_BAD = ['1', "'O1'", 'None', 'S.O1']
+PLACE_BAD = ['1', "'O1'", 'None', 'S.O1'] + FALSY
 
 POOLS = {
     # option: (valid tokens, invalid tokens, either-way tokens)
@@ -91,20 +95,20 @@ POOLS = {
     'claw_skip_package_names': (['()', "('a',)", "('a.b','c')", "('c','a.b')", 'frozenset(a)'],
                                 ["('1a',)", '(1,)', "'a.b'", '1', 'None'], ["['a']", "{'a'}"]),
     'hint_overrides': (['FD()', 'FD(int:float)', 'FD(float:float|int)', 'FD(float:str)'],
-                       ['{int:str}', '{}', '[]', 'None', '1'], []),
-    'is_color': (['True', 'False', 'None'], ['1', '0', "'True'", '1.0'], []),
+                       ['{int:str}', '{}', '[]', 'None', '1', '0', "''", '()'], []),
+    'is_color': (['True', 'False', 'None'], ['1', '0', "'True'", '1.0', "''", '()', '0.0'], []),
     'is_debug': (BOOL_OK, BOOL_BAD, []),
     'is_pep484_tower': (BOOL_OK, BOOL_BAD, []),
     'is_pep557_fields': (BOOL_OK, BOOL_BAD, []),
     'is_random': (BOOL_OK, BOOL_BAD, []),
-    'strategy': (['S.O0', 'S.O1', 'S.Ologn', 'S.On'], ["'O1'", '1', 'None', 'V.DEF'], []),
+    'strategy': (['S.O0', 'S.O1', 'S.Ologn', 'S.On'], ["'O1'", '1', 'None', 'V.DEF'] + FALSY, []),
     'violation_door_type': (EXC_OK, EXC_BAD, []),
     'violation_param_type': (EXC_OK, EXC_BAD, []),
     'violation_return_type': (EXC_OK, EXC_BAD, []),
     'violation_type': (EXC_OK, EXC_BAD, []),
-    'violation_verbosity': (['V.MIN', 'V.DEF', 'V.MAX'], ['1', '2', '3', '1.0', "'O1'", 'None', 'True'], []),
+    'violation_verbosity': (['V.MIN', 'V.DEF', 'V.MAX'], ['1', '2', '3', '1.0', "'O1'", 'None', 'True'] + FALSY, []),
     'warning_cls_on_decorator_exception': (['None', 'UserWarning', 'UserWarn', 'ClawWarn'],
-                                           ['ValueError', "'True'", '1', 'int'], []),
+                                           ['ValueError', "'True'", '1', 'int'] + FALSY, []),
 }
 OPTIONS = sorted(POOLS)
 DEFAULT_TOKEN = {
@@ -116,15 +120,19 @@ DEFAULT_TOKEN = {
 }
 
 
-def _kw_strategy(max_opts):
-    def one(opt):
-        ok, bad, either = POOLS[opt]
-        # valid values dominate so that most constructions succeed and populate the memo
-        return st.one_of(st.sampled_from(ok), st.sampled_from(ok), st.sampled_from(ok),
-                         st.sampled_from(bad + either))
-    return st.lists(st.sampled_from(OPTIONS), min_size=0, max_size=max_opts, unique=True).flatmap(
-        lambda opts: st.tuples(*[one(o) for o in opts]).map(
-            lambda vals, opts=opts: [[o, v] for o, v in zip(opts, vals)]))
+@st.composite
+def _kw_strategy(draw, max_opts):
+    """One keyword set: the number of invalid values is drawn first (none / one / two), so that a single invalid value is
+    usually surrounded by valid ones (an independent 25 % per option made half of all constructions invalid and hid which
+    option let a bad value through)."""
+    opts = draw(st.lists(st.sampled_from(OPTIONS), min_size=0, max_size=max_opts, unique=True))
+    nbad = min(len(opts), draw(st.sampled_from([0, 0, 0, 1, 1, 1, 2])))
+    bad_at = set(draw(st.permutations(range(len(opts))))[:nbad]) if nbad else set()
+    kw = []
+    for i, o in enumerate(opts):
+        ok, bad, either = POOLS[o]
+        kw.append([o, draw(st.sampled_from(bad + either if i in bad_at else ok))])
+    return kw
 
 
 @st.composite
@@ -377,3 +385,23 @@ def run_case(case):
             seen.add(f['sig'])
             out.append(f)
     return {'fails': out, 'nontrivial': nontriv, 'classes': classes, 'evals': evals}
+
+
+def extra_engine(tier, seed, agg, safe_run_case):
+    """Finite part of the domain, enumerated instead of sampled: every (option, pool value) pair as the only keyword of a
+    fresh process, and - for every option - each invalid / look-alike value constructed right after each valid one (the memo
+    is then warm with an equal-comparing or unrelated valid configuration)."""
+    import sys
+    mod = sys.modules[__name__]
+    n = 0
+    for opt in OPTIONS:
+        ok, bad, either = POOLS[opt]
+        for tok in ok + bad + either:
+            safe_run_case(mod, {'history': [], 'final': [[opt, tok]], 'perm': 0, 'env_color': None}, agg)
+            n += 1
+        if tier == 'thorough':
+            for good in ok:
+                for tok in bad + either:
+                    safe_run_case(mod, {'history': [[[opt, good]]], 'final': [[opt, tok]], 'perm': 0, 'env_color': None}, agg)
+                    n += 1
+    agg.extra['enumerated_single_option_cases'] = n
